@@ -3,6 +3,7 @@ package rag
 import (
 	"fmt"
 	"strings"
+	"unicode/utf8"
 )
 
 // SizeUnit defines the unit of measurement for chunk sizes
@@ -501,7 +502,16 @@ func findWordBoundaryNear(text string, targetPos int) int {
 		}
 	}
 
-	return targetPos
+	return runeBoundaryAtOrBefore(text, targetPos)
+}
+
+// runeBoundaryAtOrBefore returns the largest position <= pos that does not
+// fall inside a multi-byte character
+func runeBoundaryAtOrBefore(text string, pos int) int {
+	for pos > 0 && pos < len(text) && !utf8.RuneStart(text[pos]) {
+		pos--
+	}
+	return pos
 }
 
 // isSentenceEndChar checks if a character typically ends a sentence
@@ -523,7 +533,11 @@ func (sc *SizeCalculator) SplitToSize(text string, boundaries []Boundary) []stri
 
 		// Find split point using max limit (not target) to ensure chunks fit
 		splitPos := sc.FindSplitPointAt(remaining, boundaries, sc.config.Max.Value, sc.config.Max.Unit)
-		if splitPos <= 0 || splitPos >= len(remaining) {
+		if splitPos <= 0 {
+			// Always make progress by at least one whole character
+			_, splitPos = utf8.DecodeRuneInString(remaining)
+		}
+		if splitPos >= len(remaining) {
 			// Can't split further, add remaining as-is
 			chunks = append(chunks, remaining)
 			break
